@@ -72,7 +72,7 @@ def run(prop, tier, seed, replay):
         case = G.rand_corrfunc_parts(rng, mask=ci % 8, auto=(ci // 8) % 2 == 0)
         reqs.append(G.enc_cf(str(ci), case))
         cases.append(case)
-    gen = ck.driver("GenDriver", reqs)
+    gen = ck.driver("GenResample", reqs)
     spec = ck.driver("SpecDriver", reqs)
     if spec is None:
         raise Infra("SpecDriver does not build")
@@ -150,7 +150,7 @@ def run(prop, tier, seed, replay):
                 toks += [fr(x) for x in c.data] + [fr(x) for x in c.samples.ravel()]
         nz_reqs.append(" ".join(toks))
         nz_cases.append((cross, ref, unk, B, M))
-    gnz = ck.driver("GenDriver", nz_reqs)
+    gnz = ck.driver("GenResample", nz_reqs)
     snz = ck.driver("SpecDriver", nz_reqs)
     for i, (cross, ref, unk, B, M) in enumerate(nz_cases):
         rd = RedshiftData.from_corrdata(cross, ref, unk)
@@ -208,7 +208,7 @@ def run(prop, tier, seed, replay):
         else:
             hn_reqs.append(None)
     live = [r for r in hn_reqs if r is not None]
-    ghn = ck.driver("GenDriver", live)
+    ghn = ck.driver("GenResample", live)
     ghn_iter = iter(ghn) if ghn is not None else None
     for i, (obj, with_nan) in enumerate(hn_cases):
         out = obj.normalised()
